@@ -237,7 +237,15 @@ class C08(core.Check):
             if r.random() < 0.3 and nch > 2:
                 pieces[r.randrange(nch)] = pieces[0]  # duplicate chunk
             db = r.randbytes(r.choice([0, 0, 50]))
-            Bt = zckref.make_file(pieces, comp_type=comp, dict_bytes=db, chunk_hash_type=cht, uncomp=uncomp)
+            if i % 8 == 3:
+                # stored chunks with whole 32 KiB blocks of zeros (block-aligned inside the chunk), to be copied over stale target bytes
+                comp = 0
+                pieces[r.randrange(nch)] = bytes(32768 * r.choice([1, 2, 3])) + gen.content("random", r.choice([0, 100, 40000]), r.random())
+                pieces[r.randrange(nch)] = gen.content("random", 32768, r.random()) + bytes(32768) + gen.content("random", 5000, r.random())
+            sed_ = (i % 10 == 5)
+            if sed_:
+                comp, db = 2, b""   # another writer's "no dictionary": the zstd frame of nothing stored in the first entry
+            Bt = zckref.make_file(pieces, comp_type=comp, dict_bytes=db, chunk_hash_type=cht, uncomp=uncomp, stored_empty_dict=sed_)
             pT = zckref.parse(Bt)
             # initial target
             T = bytearray(Bt)
